@@ -1,0 +1,19 @@
+// SPDX-FileCopyrightText: 2020-present Open Networking Foundation <info@opennetworking.org>
+//
+// SPDX-License-Identifier: Apache-2.0
+
+//go:build verif
+// +build verif
+
+package configuration
+
+import (
+	"github.com/onosproject/onos-config/pkg/southbound/gnmi"
+	"github.com/onosproject/onos-config/pkg/store/topo"
+	configurationstore "github.com/onosproject/onos-config/pkg/store/v3/configuration"
+)
+
+// NewReconcilerForVerif builds the v3 configuration reconciler for the external verification harness
+func NewReconcilerForVerif(topo topo.Store, conns gnmi.ConnManager, configurations configurationstore.Store) *Reconciler {
+	return &Reconciler{conns: conns, topo: topo, configurations: configurations}
+}
